@@ -271,6 +271,11 @@ def one_stack(b, stack, nondim, solve_for, analytic=None):
         b.subset_exits.append(f"{KEY} [{tag}]: {e}")
         return
     b.stats["paths"] += len(paths)
+    if len(paths) == 1 and paths[0].outcome == "raise" and getattr(paths[0].value, "typ", "") == "NotImplementedError":
+        msg = f"[{'-'.join(stack)}] rejected by the real starting-condition driver (NotImplementedError): no solution, no C02 obligation"
+        if msg not in b.notes:
+            b.notes.append(msg)
+        return
     if len(paths) != 1 or paths[0].outcome != "return":
         b.subset_exits.append(f"{KEY} [{tag}]: expected one returning path, got {[p.outcome for p in paths]}")
         return
@@ -415,7 +420,9 @@ def layer_loops(b):
 def stacks_for(tier):
     out = []
     triples = TRIPLES if tier == "quick" else [[a_, b_, c_] for a_ in SINGLES for b_ in SINGLES for c_ in SINGLES]      # thorough: every triple of layer kinds
-    for st in [[k] for k in SINGLES] + PAIRS + triples + DEEP:
+    # the driver rejects a static-incompressible solid as the innermost layer: its pairs are exercised one layer up
+    lifted = [["S", "Ssi", k] for k in SINGLES] if tier == "quick" else []
+    for st in [[k] for k in SINGLES] + PAIRS + triples + lifted + DEEP:
         out.append((st, True, TYPES))
     for st in [[k] for k in SINGLES] + (PAIRS if tier == "thorough" else PAIRS[::3]) + TRIPLES[:4] + DEEP[:1]:
         out.append((st, False, TYPES))
